@@ -80,6 +80,11 @@ def h_index_step(params):
             idx.build(pts)
         rm = {i for i in range(n) if lpe.sym_bool(f"rm{i}")}
         keep = [i for i in range(n) if i not in rm]
+        for name in ("remove", "update", "_reset", "build", "insert"):
+            if not callable(getattr(idx, name, None)):
+                # this family drives Index's maintenance methods directly, the way _remove_helper
+                # does; if they no longer exist in this form only the database-level family applies
+                raise lpe.Inconclusive(f"Index.{name} not available: index maintenance API refactored")
         if rm and keep:
             upd = {old: new for new, old in enumerate(keep) if old != new}
             idx.remove(set(rm))
@@ -107,8 +112,19 @@ def h_index_step(params):
         symtime.uninstall()
 
 
-def _compare(idx, ref, what):
+def _compare(idx, ref, what, h=None):
     from ..model import veq
+
+    structural = ("_num_items", "_timestamps", "_storage_pos_sorted_by_ts", "_measurements", "_tags", "_fields")
+    if not all(hasattr(idx, a) and hasattr(ref, a) for a in structural):
+        # the index keeps its data differently (refactored): compare the answers it gives
+        from ..hist import _inv_observational
+
+        class _Shim:
+            db = ()
+
+        _inv_observational(_Shim(), idx, ref, what, time_queries=False)
+        return
 
     require(idx._num_items == ref._num_items and len(idx) == len(ref), lambda: f"INV {what}: _num_items {idx._num_items} vs {ref._num_items}")
     require(len(idx._timestamps) == len(ref._timestamps), lambda: f"INV {what}: timestamps {show(idx._timestamps)} vs {show(ref._timestamps)}")
